@@ -12,6 +12,7 @@ from vt.core import dense_cores, meta_problem
 
 
 DENSE_CAP = 1 << 14
+RANK_CAP = 8
 CPU_LIMIT_S = 20.0
 
 
@@ -32,7 +33,11 @@ def small(t):
             n *= int(a) * int(b)
             if n > DENSE_CAP:
                 return False
-        return n * int(t.ranks[0]) * int(t.ranks[-1]) <= DENSE_CAP
+        if n * int(t.ranks[0]) * int(t.ranks[-1]) > DENSE_CAP:
+            return False
+        # products and sums multiply / add TT ranks: keep them small enough that one more operation (operator product, HOD series
+        # of order 4: rank^3) still fits in memory
+        return max(int(x) for x in t.ranks) <= RANK_CAP
     except Exception:
         return True
 
@@ -352,6 +357,15 @@ def replay(model, pool, seed, history):
 _MODEL = None
 
 
+def _worker_init():
+    try:   # a runaway transition must fail with MemoryError in that transition instead of getting the worker OOM-killed
+        import resource, os
+        lim = int(float(os.environ.get('VERIF_WORKER_MEM_GB', '6')) * 2 ** 30)
+        resource.setrlimit(resource.RLIMIT_AS, (lim, lim))
+    except Exception:
+        pass
+
+
 def _expand(args):
     pool, seed, history, inplace_used, bound_inplace, last_level, only_inplace = args[:7]
     part = args[7] if len(args) > 7 else (0, 1)
@@ -454,7 +468,8 @@ def explore(model, tier, seed, jobs, depth, bound_inplace, pools=None, last_inpl
         seen[pool] = {(hashlib.blake2b(repr(canon(model.pools[pool](seed))).encode(), digest_size=16).digest(), None)[0]}
         frontier.append((pool, [], 0, None))
         stats['per_pool'][pool] = {'states': 1, 'transitions': 0}
-    with ctx.Pool(jobs) as p:
+    import concurrent.futures as cf
+    with cf.ProcessPoolExecutor(jobs, mp_context=ctx, initializer=_worker_init) as p:      # a worker that dies raises BrokenProcessPool
         for lvl in range(1, depth + 1):
             last = lvl == depth
             # expensive pools (solvers, integrators) first, small chunks: the level ends when the slowest chunk does
@@ -464,7 +479,7 @@ def explore(model, tier, seed, jobs, depth, bound_inplace, pools=None, last_inpl
             args = [(pool, seed, h, iu, bound_inplace, last, last and last_inplace_only, (i_, nparts(pool)), dg) for pool, h, iu, dg in frontier for i_ in range(nparts(pool))]
             nxt = []
             new_per_pool = collections.Counter()
-            for (a, out) in zip(args, p.imap(_expand, args, chunksize=max(1, min(8, len(args) // (jobs * 16) or 1)))):
+            for (a, out) in zip(args, p.map(_expand, args, chunksize=max(1, min(8, len(args) // (jobs * 16) or 1)))):
                 pool = a[0]
                 stats['transitions'] += out['transitions']; stats['replays'] += out['replays']; stats['raised'] += out['raised']
                 stats['per_pool'][pool]['transitions'] += out['transitions']
